@@ -663,7 +663,8 @@ package analysis
 
 //@ func importReferences(opts)
 //@   requires opts != nil && opts.Spec != nil && opts.Spec.spec != nil && synced(opts.Spec)
-//@   modifies heaps DOC, heaps INDEX, heaps FCTX
+//@   modifies heaps DOC, heaps INDEX, heaps FCTX, opts.flattenContext
+//@   ensures old(opts.flattenContext) != nil ==> opts.flattenContext == old(opts.flattenContext)
 //@   ensures result == nil ==> synced(opts.Spec)
 //@   ensures opts.Spec == old(opts.Spec) && opts.Spec.spec == old(opts.Spec.spec)
 //@   loop 1: invariant synced(opts.Spec) && opts != nil && opts.Spec == old(opts.Spec) && opts.Spec.spec == old(opts.Spec.spec)
